@@ -204,11 +204,14 @@ func (a *Agent) handleMembers(members []*Member) {
 	joined := NewMemberSet(members...).Except(a.members.Slice())
 	left := a.members.Except(members)
 
-	for _, member := range joined {
-		a.memberJoin(member)
-	}
+	// Leaves first: a member that joins in the same update is sent our topology, and that
+	// must no longer contain the actors of the members that this update says are gone -
+	// the joiner never knew them and would never be told to forget them.
 	for _, member := range left {
 		a.memberLeave(member)
+	}
+	for _, member := range joined {
+		a.memberJoin(member)
 	}
 }
 
